@@ -6,6 +6,8 @@ use crate::{
     Result,
 };
 
+use rustzx_z80::Z80Bus;
+
 const SNA_HEADER_SIZE: usize = 27;
 const SNA_128K_SECONDARY_HEADER_SIZE: usize = 4;
 const SNA_48K_SIZE: usize = 49179;
@@ -169,25 +171,49 @@ where
 struct ScopedSnapshotState<'a, H: Host> {
     pub emulator: &'a mut Emulator<H>,
     pub is_48k: bool,
+    // PC, SP and the two bytes below SP which are temporarily replaced with PC
+    // while 48K snapshot is being saved
+    saved_pc: u16,
+    saved_sp: u16,
+    saved_stack_bytes: [u8; 2],
 }
 
 impl<'a, H: Host> ScopedSnapshotState<'a, H> {
     fn enter(emulator: &'a mut Emulator<H>) -> Self {
         let is_48k = emulator.settings.machine == ZXMachine::Sinclair48K;
+        let saved_pc = emulator.cpu.regs.get_pc();
+        let saved_sp = emulator.cpu.regs.get_sp();
+        let saved_stack_bytes = [
+            emulator.controller.memory.read(saved_sp.wrapping_sub(2)),
+            emulator.controller.memory.read(saved_sp.wrapping_sub(1)),
+        ];
         if is_48k {
             emulator.cpu.push_pc_to_stack(&mut emulator.controller);
         }
 
-        Self { emulator, is_48k }
+        Self {
+            emulator,
+            is_48k,
+            saved_pc,
+            saved_sp,
+            saved_stack_bytes,
+        }
     }
 }
 
 impl<'a, H: Host> Drop for ScopedSnapshotState<'a, H> {
     fn drop(&mut self) {
         if self.is_48k {
+            // Saving must not change running machine: restore registers and stack memory
+            // instead of popping PC (which may be not even stored if stack points to ROM)
+            self.emulator.cpu.regs.set_sp(self.saved_sp);
+            self.emulator.cpu.regs.set_pc(self.saved_pc);
             self.emulator
-                .cpu
-                .pop_pc_from_stack(&mut self.emulator.controller);
+                .controller
+                .write_internal(self.saved_sp.wrapping_sub(2), self.saved_stack_bytes[0]);
+            self.emulator
+                .controller
+                .write_internal(self.saved_sp.wrapping_sub(1), self.saved_stack_bytes[1]);
         }
     }
 }
@@ -198,7 +224,9 @@ where
     R: DataRecorder,
 {
     let state = ScopedSnapshotState::enter(emulator);
-    let ScopedSnapshotState { emulator, is_48k } = &state;
+    let ScopedSnapshotState {
+        emulator, is_48k, ..
+    } = &state;
 
     let mut header = [0u8; SNA_HEADER_SIZE];
     // interrupt register
